@@ -333,6 +333,21 @@ func (o *objectGoArrayReflect) sortGet(i int) Value {
 	return o.getIdx(valueInt(i), nil)
 }
 
+func (o *objectGoArrayReflect) setReflectValue(v reflect.Value) {
+	o.objectGoReflect.setReflectValue(v)
+	// the cached wrappers of nested struct/array/slice elements move with their owner
+	for i, w := range o.valueCache {
+		if w != nil {
+			if i < v.Len() {
+				w.setReflectValue(v.Index(i))
+			} else {
+				copyReflectValueWrapper(w)
+				o.valueCache[i] = nil
+			}
+		}
+	}
+}
+
 func (o *objectGoArrayReflect) swap(i int, j int) {
 	vi := o.fieldsValue.Index(i)
 	vj := o.fieldsValue.Index(j)
